@@ -24,6 +24,7 @@ RULE = (
     ' Round 8: `flag` ops.'
     ' Round 9: all 256 node ids enumerated.'
     ' Round 10: every internal type with payload 0/1 arrives before the first rejected message.'
+    ' Round 11: environment sweep (see C03); on a leak an owed presentation request is still reported.'
 )
 ASSUMPTIONS = [
     "a failed request write surfaces as a transport error from that listen step (any library error is accepted)",
